@@ -111,3 +111,37 @@ func TestVF_C09_ReproS3(t *testing.T) {
 			tn.FirstIndex, tn.EntryCount, p.FirstIndex, p.EntryCount)
 	}
 }
+
+// TestVF_C09_ReproS12 is the minimal reproduction of known finding S12: sharded
+// Pebble keeps its per-node caches across RemoveNodeData, so the first saves of
+// a new life of that replica in the same process are filtered against the
+// removed life. (Not reachable through NodeHost, which refuses to restart a
+// removed replica; it is why the generator starts a new life on Pebble only
+// after a reopen.)
+func TestVF_C09_ReproS12(t *testing.T) {
+	st := vfhelp.NewStats("TestVF_C09_ReproS12", "fixed reproduction of S12 (Pebble caches survive RemoveNodeData)")
+	defer st.Flush()
+	fs := vfs.NewStrictMem()
+	db := mustOpen(t, fs, pebbleOpener(false, nil))
+	defer db.Close()
+	ss := pb.Snapshot{Index: 5, Term: 1, ShardID: 1, Type: pb.RegularStateMachine}
+	must(t, db.SaveRaftState([]pb.Update{
+		{ShardID: 1, ReplicaID: 1, State: pb.State{Term: 1, Commit: 5}, EntriesToSave: mkEntries(1, 10, 1)},
+	}, 2))
+	must(t, db.SaveSnapshots([]pb.Update{{ShardID: 1, ReplicaID: 1, Snapshot: ss}}))
+	must(t, db.RemoveNodeData(1, 1))
+	// new life: the same hard state and a snapshot record at the same index
+	ss2 := pb.Snapshot{Index: 5, Term: 1, ShardID: 1, Type: pb.RegularStateMachine, Filepath: "new-life"}
+	must(t, db.SaveRaftState([]pb.Update{
+		{ShardID: 1, ReplicaID: 1, State: pb.State{Term: 1, Commit: 5}, Snapshot: ss2},
+	}, 2))
+	got, err := db.GetSnapshot(1, 1)
+	must(t, err)
+	rs, rerr := db.ReadRaftState(1, 1, got.Index)
+	t.Logf("after RemoveNodeData + new life: GetSnapshot index %d path %q; ReadRaftState %+v, err %v", got.Index, got.Filepath, rs, rerr)
+	st.Case([]byte("s12"), true, "repro")
+	if got.Index != 5 || rerr != nil || rs.State.Term != 1 {
+		st.Known(t, SigS12, "RemoveNodeData(1,1), then SaveRaftState{state{t1,c5}, snapshot{5}} returned nil; GetSnapshot index %d "+
+			"(want 5), ReadRaftState = %+v, %v (want state{t1,c5})", got.Index, rs, rerr)
+	}
+}
